@@ -2,8 +2,8 @@
 from corr import corr_mesh, corr_terms, corr_tvd, corr_ghost
 import implsearch as IS
 
-MODULES = ["PyFV.Props.C01", "PyFV.Props.C01Box", "PyFV.Props.GenEq", "PyFV.Props.GenEqVol", "PyFV.Props.GenEqUpw"]
-TRANSLATORS = {"T-lim": "python3 harness/translate/tlim.py lean/PyFV/Gen/Limiters.lean", "T-num": "python3 harness/translate/tnum.py lean/PyFV/Gen/Stencils.lean", "T-upw": "python3 harness/translate/tupw.py lean/PyFV/Gen/StencilsUpw.lean"}
+MODULES = ["PyFV.Props.C01", "PyFV.Props.C01Box", "PyFV.Props.GenEq", "PyFV.Props.GenEqVol", "PyFV.Props.GenEqUpw", "PyFV.Props.GenEqObs"]
+TRANSLATORS = {"T-lim": "python3 harness/translate/tlim.py lean/PyFV/Gen/Limiters.lean", "T-num": "python3 harness/translate/tnum.py lean/PyFV/Gen/Stencils.lean", "T-upw": "python3 harness/translate/tupw.py lean/PyFV/Gen/StencilsUpw.lean", "T-obs": "python3 harness/translate/tobs.py lean/PyFV/Gen/ObsGen.lean"}
 
 
 def corr(rng, tier):
